@@ -207,7 +207,7 @@ pub fn run(ctx: &mut Ctx) {
         {default, ignore_crc, ignore_adler32=false, skip_ancillary_crc_failures=false} + Adler-32 field alteration (CRCs repaired); each altered file decoded through Reader (read_info, all frames, finish) \
         and compared with the unaltered decode and with the decode of the file without the chunk; every case alters a checksum-covered bit, so all are non-trivial; distinct = hash(altered file, options)".into();
     let mut rng = ctx.rng.fork(1);
-    let n = ctx.n(36, 400);
+    let n = ctx.n(110, 400);
     let flips = ctx.n(4, 12);
     for i in 0..n {
         let mut r = rng.fork(i as u64);
